@@ -328,7 +328,8 @@ fn parse_object_type(
         match args {
             [ir::TypeOrConstant::Constant(ir::RestrictedConstant::UInt32(v))] => Some(*v),
             [ir::TypeOrConstant::Constant(ir::RestrictedConstant::IntLiteral(v))] => {
-                Some(*v as u32)
+                // The value has to be representable as a uint
+                u32::try_from(*v).ok()
             }
             _ => None,
         }
